@@ -16,6 +16,7 @@ def run(tier, seed):
     aclhist.fill_permutations(rng, jobs)
     tjobs, gen = aclhist.tlc_histories(tier, seed, len(jobs) + 1, want={"Group", "Ungroup", "Reverse"}, cap=1500 if tier == "quick" else 20000)
     jobs += [j for j in tjobs if j["lines"]]
+    jobs += aclhist.dup_histories(rng, 300 if tier == "quick" else 5000, max(j["tid"] for j in jobs) + 1)
     return aclhist.run_histories("C15", jobs, tier, mcs, "behaviours enumerated by TLC (MC_Acl_gen: every rule list of <= 3 items x 2 operations) replayed on a live object, plus a seeded operation mix of group / ungroup / sort / permute / reverse / resequence / tcam_count", gens=[gen])
 
 
